@@ -11,8 +11,8 @@ bin/govc check -property "$p" -tier thorough || exit $?
 t=
 case "$p" in
  C01) t='TestVerifRegressD1' ;;
- C08) t='TestVerifRegressD2$' ;;
- C06) t='TestVerifRegressD3$' ;;
+ C04|C08) t='TestVerifRegressD2$' ;;
+ C06) t='TestVerifRegressD3$|TestVerifRegressD4$' ;;
  C15) t='TestVerifRegressD6$|TestVerifRegressD7$' ;;
  C19) t='TestVerifRegressD8$' ;;
 esac
